@@ -213,8 +213,14 @@ func runOnce(traced int, at *point) (res result) {
 		return err
 	}, false)
 	probe("control DKG status", func(ctx context.Context) error {
-		_, _, err := cl.Status(traced)
-		return err
+		done := make(chan error, 1)
+		go func() { _, _, err := cl.Status(traced); done <- err }()
+		select {
+		case err := <-done:
+			return err
+		case <-ctx.Done():
+			return ctx.Err()
+		}
 	}, true)
 	if !ch.Alive() {
 		res.problems = append(res.problems, "process-died")
@@ -225,6 +231,17 @@ func runOnce(traced int, at *point) (res result) {
 func main() {
 	bench.MaybeChild()
 	c := vlib.New("C14", "model_checking")
+	// no step of this sub-check waits without a deadline of its own, but it drives real processes: a run that has not
+	// finished long after every deadline has passed is reported as an engine error instead of hanging
+	go func() {
+		d := 8*time.Minute
+		if !c.Quick() {
+			d *= 3
+		}
+		time.Sleep(d)
+		c.EngineError("watchdog: the sub-check did not finish within %v", d)
+		c.Finish("watchdog")
+	}()
 	if c.Replay != "" {
 		// re-run the one point named in the replay file
 		var rp struct {
